@@ -1,4 +1,4 @@
-\* exhaustive plan enumeration (no VIEW): every create variant x every fault of create, then one more call
+\* exhaustive plan enumeration (no VIEW): every create variant with ODD-SHAPED credential values (every shape x which fields have it) x every fault of create, then one more call
 SPECIFICATION Spec
 CHECK_DEADLOCK FALSE
 INVARIANTS PlanOut
@@ -17,8 +17,8 @@ CONSTANTS
   MaskSasl = TRUE
   MaskOnReloadFail = TRUE
   NoDecodeEcho = TRUE
-  Spellings = {"canon", "cap", "upper", "mixed"}
+  Spellings = {"canon"}
   MaskDecoded = TRUE
   ReadFailIsError = TRUE
-  Shapes = {"plain"}
+  Shapes = {"lead_sp", "trail_sp", "tab_in", "trail_tab", "trail_lf", "bad_utf8"}
   RejectQuotesValue = FALSE
